@@ -264,6 +264,8 @@ class Interp:
         self.named_universe = named_universe or {}
         self.steps = 0
         self.unknown_calls = defaultdict(int)
+        self.effectful_closure_escapes = defaultdict(int)
+        self._pure_cache = {}
         self.dedup = dedup
         self.seen = set()
         self.contracts = {}           # short name of an opaque local function -> fn(call): adds its contract facts
@@ -281,6 +283,8 @@ class Interp:
             "Connect": "Method::CONNECT", "Patch": "Method::PATCH", "$other": "Method::$other"}}
 
     # ---------------------------------------------------------------- entry
+    _pure_cache_unused = None
+
     def run(self, body, arg_trees, init=None):
         """Run `body` with the given argument trees (list of dict relpath->leaf).
         `init(state)` may pre-populate memory roots / facts. Returns list of Outcome."""
@@ -1012,6 +1016,13 @@ class Interp:
         if vleaf and vleaf[0] == "variant":
             st.write_leaf(droot, dpath, ("int", byname[vleaf[1]]))
             return None
+        if "version::Http" in str(en.get("adt")) and path and path[-1] == ("f", "0"):
+            # http::Version is a one-field wrapper of a field-less enum and is modelled by that enum's discriminant value
+            # (as the compiler-evaluated constants are): the discriminant of `v.0` is the value of `v` itself
+            pl = st.read_leaf(root, path[:-1])
+            if pl[0] in ("int", "term"):
+                st.write_leaf(droot, dpath, pl)
+                return None
         base = st.read_leaf(root, path)
         cands = list(byname)
         link = self.variant_links.get(en["adt"])
@@ -1565,6 +1576,17 @@ class Interp:
         for ps, l in keep.items():
             st.write_leaf(root, path + ps, l)
 
+    def _closure_is_pure(self, body):
+        c = self._pure_cache.get(body.id)
+        if c is None:
+            from .effects import effects_of
+            try:
+                c = bool(effects_of(self.prog).is_pure(body))
+            except Exception:
+                c = False
+            self._pure_cache[body.id] = c
+        return c
+
     def default_foreign(self, call):
         st = call.st
         path = getattr(call, "path", "<indirect>")
@@ -1582,6 +1604,17 @@ class Interp:
         if short(call.term["dest"]["ty"]) in ("()", "!"):
             res = UNIT
         self.havoc_refs(st, call.args, tys, site=(call.fr.body.id, call.fr.bb, nvis))
+        # a closure handed to an unknown function may be called by it any number of times: what an effectful closure can
+        # write through its captured references is unknown afterwards
+        for a in call.args:
+            l = tree_leaf(a)
+            if l[0] == "closure":
+                cb = self.prog.bodies.get(l[1])
+                if cb is not None and not self._closure_is_pure(cb):
+                    for pth, cl in list(a.items()):
+                        if pth and cl[0] == "ref":
+                            self.havoc_at(st, cl[1], cl[2], TOP)
+                    self.effectful_closure_escapes[path] += 1
         st.write_tree(call.dest[0], call.dest[1], leaf_tree(res))
         if call.term["target"] is None:
             site = dict(body=call.fr.body, bb=call.fr.bb, kind="diverging-call:" + path,
